@@ -17,7 +17,7 @@ META = {
         "one underlying pattern, Bivincular/Vincular/Covincular, twins = the same shading through different "
         "classes), each built in EVERY order (<= 24) and with one repeated element, through Basis / MeshBasis / "
         "from_iterable / Av / Av.from_iterable (lists, tuples, one-shot iterators); digit strings 0- and 1-based "
-        "with assorted separators for from_string; plus exhaustive small classical multisets. Oracle: the set of "
+        "with assorted separators for from_string; plus exhaustive small classical multisets and every set of 2-3 (4 thorough) shadings of the one-point pattern. Oracle: the set of "
         "containment-minimal elements (reference mesh-in-mesh containment) and brute-force class equality. "
         "Non-trivial: some input element contains another (pruning must happen) or >= 2 different pattern "
         "classes are mixed. Distinct = multiset content."
@@ -164,8 +164,13 @@ def nested_shadings(draw):
     cells = [(x, y) for x in range(k + 1) for y in range(k + 1)]
     big = [list(c) for c in draw(st.lists(st.sampled_from(cells), min_size=1, max_size=min(len(cells), 5), unique=True))]
     out = [[p, sorted(big)]]
-    for _ in range(draw(st.integers(1, 2))):
-        sub = [c for c in big if draw(st.booleans())]
+    for _ in range(draw(st.integers(1, 3))):
+        # subsets of the big shading (comparable with it) and arbitrary small shadings
+        # (possibly incomparable with everything) on the same underlying pattern
+        if draw(st.booleans()):
+            sub = [c for c in big if draw(st.booleans())]
+        else:
+            sub = [list(c) for c in draw(st.lists(st.sampled_from(cells), max_size=3, unique=True))]
         out.append([p, sorted(sub)])
     return out
 
@@ -233,6 +238,18 @@ def shard_small_classical(acc, shard, nshards, max_len, max_size):
             i += 1
 
 
+def shard_small_mesh(acc, shard, nshards, sizes):
+    """every set of 2..sizes mesh patterns on the underlying pattern 0 (all 16 shadings)"""
+    cells = [(0, 0), (0, 1), (1, 0), (1, 1)]
+    pats = [[[0], [list(c) for j, c in enumerate(cells) if mask >> j & 1]] for mask in range(16)]
+    i = 0
+    for size in range(2, sizes + 1):
+        for combo in itertools.combinations(pats, size):
+            if i % nshards == shard:
+                acc.record("basis", check_basis, {"patts": list(combo), "n": 3})
+            i += 1
+
+
 def shard_generated(acc, shard, nshards, n_basis, n_str):
     engine.hyp_run(acc, "basis", check_basis, basis_cases(), n_basis, shard)
     engine.hyp_run(acc, "from_string", check_from_string, string_cases(), n_str, shard)
@@ -241,7 +258,9 @@ def shard_generated(acc, shard, nshards, n_basis, n_str):
 def run(acc, tier):
     if tier == "quick":
         engine.pmap(acc, shard_small_classical, extra=(3, 2))
+        engine.pmap(acc, shard_small_mesh, extra=(3,))
         engine.pmap(acc, shard_generated, extra=(120, 80))
     else:
         engine.pmap(acc, shard_small_classical, extra=(3, 3))
+        engine.pmap(acc, shard_small_mesh, extra=(4,))
         engine.pmap(acc, shard_generated, extra=(1500, 800))
